@@ -317,6 +317,9 @@ def run(ctx):
         "LogAppendTime topics are exercised with Produce >= v2 only (v0/v1 replies carry no timestamp, the client "
         "cannot know the append time)",
         "random fault schedules never leave a partition without a leader; the expiry path is exercised by its probe",
+        "transactional producers: commit/abort and the coordinator requests are environment (C07/C16); the marker the "
+        "coordinator writes takes one offset (Ev.marker, tt = 2 in the model's log) - coordinates of records sent after "
+        "it are checked against the log with the markers in place",
     ]
     proved = ctx.prove(drivers=["akdriver"])
     env = P.Env(ctx.repo)
@@ -410,12 +413,12 @@ def run(ctx):
     if ctx.replay_cases is not None:
         scenarios = [c for c in ctx.replay_cases if isinstance(c, dict) and "tasks" in c]
     else:
-        n = 12000 if ctx.thorough else 400
+        n = 12000 if ctx.thorough else 540
         scenarios = [leader_probe_scenario()] + [c for c in load_corpus() if "tasks" in c]
         for i in range(n):
-            kind = ("mixed", "acks0", "idem", "plain", "mixed", "clean")[i % 6]
-            sc = P.gen_scenario(rng, i, kind=kind, big=(i % 9 == 0))
-            if i % 3 == 0 and sc["stop_at"] is None:
+            kind = ("mixed", "acks0", "txn", "idem", "plain", "migrate", "mixed", "txn", "clean")[i % 9]
+            sc = P.gen_scenario(rng, i, kind=kind, big=(i % 7 == 0))
+            if i % 3 == 0 and sc["stop_at"] is None and not sc.get("txn"):
                 sc["stop_at"] = rng.choice([5, 20, 50, 100, 300, 1000])
             scenarios.append(sc)
     if ctx.thorough and ctx.replay_cases is None:
@@ -508,7 +511,8 @@ def run(ctx):
         "T-diff MessageBatch: every batch of 1-3 (thorough 1-4) records over 3 timestamps x broker timestamp {-1, T} x "
         "log_start {none, n} x 14 op scripts of done/done_noack/failure/cancel, plus random batches up to 40 (200) records; "
         "T-diff handle_response: v0..v8 x 13 error codes x idempotent x expired x timestamp, plus random multi-partition "
-        "replies; T-trace: one case = one partition history of a simulator run (configuration space of C01 plus acks=0, "
+        "replies; T-trace: one case = one partition history of a simulator run (configuration space of C01, transactional "
+        "producers and leader migration under slow replies included, plus acks=0, "
         "LogAppendTime topics, send_batch, flush() inside tasks, stop() at a random time in > 1/3 of the runs). "
         "non-trivial (traces) = >= 2 records and >= 2 produce requests; distinct by canonical input")
     if mism:
